@@ -465,6 +465,8 @@ pub fn models(tier: Tier) -> Vec<C17> {
         C17::new("C17-arena-96-eight-slots", 96, &[0], &[1], false, 8, false, if q { 10 } else { 12 }),
         // a payload that fills the arena on its own
         C17::new("C17-arena-64-filling-payload", 64, &[1, 54], &[1, 2], true, 3, true, 0),
+        // roomy arena, so that the eight in-flight slots (not the bytes) are the limit, with all request kinds
+        C17::new("C17-arena-200-slot-limited-mixed-kinds", 200, &[0], &[1, 2, 3], false, 3, false, 0),
         // a QoS 0 publish whose fixed header is longer than that of the retained packets
         C17::new("C17-arena-400-long-header-scratch", 400, &[1, 140], &[1], true, 2, false, 0),
     ];
